@@ -66,7 +66,10 @@ def apply_driver_action(b, act):
         obj.clockDriver = None
     else:
         en = b.W[act['enable']] if act.get('enable') else None
-        obj.clockDriver = py4hw.ClockDriver(act.get('name', 'ckX'), base=b.hw.clockDriver, enable=en)
+        if act.get('freq'):
+            obj.clockDriver = py4hw.ClockDriver(act.get('name', 'ckX'), freq=act['freq'], enable=en)
+        else:
+            obj.clockDriver = py4hw.ClockDriver(act.get('name', 'ckX'), base=b.hw.clockDriver, enable=en)
     with muted():
         return b.hw.getSimulator()
 
@@ -125,7 +128,11 @@ def simulate(plan, hist, sched=None, subst=None, calls=None, trace=False, domain
             rec.subscribers.append(on_event)
         for call in calls:
             n, vals = call[0], call[1]
-            if len(call) > 2 and call[2]:
+            if len(call) > 2 and call[2] and call[2].get('op') == 'refetch':
+                with muted():
+                    sim = b.hw.getSimulator()       # the simulator is fetched again before the call, as testbenches do
+                out['refetches'] = out.get('refetches', 0) + 1
+            elif len(call) > 2 and call[2]:
                 sim = apply_driver_action(b, call[2])
                 out['driver_changes'] += 1
                 if domains and rec is not None:
@@ -348,6 +355,8 @@ def check_design(run, plan, rnd, T, cap, stats, meta, trace_every=7):
     stats['schedules_total_space'] = stats.get('schedules_total_space', 0) + total
     if len(drivers) > 1:
         stats['multi_driver_designs'] = stats.get('multi_driver_designs', 0) + 1
+    if any((s.get('clock') or {}).get('freq') not in (None, 50E6) for s in plan.get('scopes', [])):
+        stats['designs_with_different_freqs'] = stats.get('designs_with_different_freqs', 0) + 1
     # Monitor 2
     for k, s in enumerate(scheds[1:], 1):
         if run.too_many:
@@ -433,7 +442,7 @@ def driver_actions(plan, rnd, n):
         else:
             op = rnd.choice(['replace', 'remove', 'replace'])
         en = rnd.choice(one) if one and rnd.random() < 0.85 else None
-        acts[t] = dict(op=op, target=tgt, enable=en, name='ckX%d' % k)
+        acts[t] = dict(op=op, target=tgt, enable=en, name='ckX%d' % k, freq=rnd.choice([None, 25E6, 12.5E6, 1E6]))
         has = op != 'remove'
         if rnd.random() < 0.3:
             tgt = rnd.choice(targets)
@@ -479,7 +488,7 @@ def compositions(n, bounds, rnd):
     rz = sorted(rand)
     for _ in range(rnd.randint(1, 3)):
         rz.append(rnd.choice(rz))
-    return dict(single=single, coarse=coarse, random=sorted(rz), zeros=zeros)
+    return dict(single=single, coarse=coarse, random=sorted(rz), zeros=zeros, refetch=sorted(rand))
 
 
 def check_splitting(run, plan, hist, rnd, ident, stats, meta):
@@ -496,10 +505,11 @@ def check_splitting(run, plan, hist, rnd, ident, stats, meta):
     comps = compositions(n, bounds, rnd)
     res = {}
     for name, bl in comps.items():
-        calls = [(bl[k + 1] - bl[k], hist2[min(bl[k], n - 1)]) for k in range(len(bl) - 1)]
+        calls = [(bl[k + 1] - bl[k], hist2[min(bl[k], n - 1)]) + ((dict(op='refetch'),) if name == 'refetch' else ()) for k in range(len(bl) - 1)]
         stats['zero_length_calls'] = stats.get('zero_length_calls', 0) + sum(1 for c in calls if c[0] == 0)
         r = simulate(plan, hist2, calls=calls)
-        case = dict(plan=plan, hist=hist2, meta=meta, mode='split', bounds=bounds, calls=[[c[0], c[1]] for c in calls], composition=name)
+        case = dict(plan=plan, hist=hist2, meta=meta, mode='split', bounds=bounds, calls=[list(c) for c in calls], composition=name)
+        stats['refetch_calls'] = stats.get('refetch_calls', 0) + sum(1 for c in calls if len(c) > 2)
         stats['split_runs'] = stats.get('split_runs', 0) + 1
         if r['error']:
             run.violation('design_does_not_simulate', dict(shape=plan.get('shape')), case, observed=r['error'], what='split run raises: %s' % r['error'])
@@ -513,7 +523,7 @@ def check_splitting(run, plan, hist, rnd, ident, stats, meta):
                 at[bl[k + 1]] = r['traj'][k]
         res[name] = (at, r['total'][-1] if r['total'] else None, case)
     ref = res['single']
-    for name in ('coarse', 'random', 'zeros'):
+    for name in ('coarse', 'random', 'zeros', 'refetch'):
         at, total, case = res[name]
         for t in bounds[1:]:
             run.ev()
@@ -566,7 +576,8 @@ def post_merge(run, tier, seed):
     c = run.counters
     for k, why in (('cycles_judged', 'trace monitor judged no clock cycle'), ('settle_events', 'no settle event was observed'),
                    ('prepare_events', 'no prepare event was observed'), ('edges_compared', 'schedule monitor compared no edge'),
-                   ('split_points_compared', 'splitting monitor compared nothing'), ('zero_length_calls', 'no clk(0) call in the splittings'),
+                   ('split_points_compared', 'splitting monitor compared nothing'), ('zero_length_calls', 'no clk(0) call in the splittings'), ('refetch_calls', 'no splitting fetched the simulator again between calls'),
+                   ('designs_with_different_freqs', 'no design with clock drivers of different frequencies'),
                    ('driver_changes', 'no clockDriver was changed on a live design'), ('cycles_with_a_gated_sequential_leaf', 'no cycle with a gated-off sequential leaf was judged'), ('multi_driver_designs', 'no design with two clock drivers was run')):
         if not c.get(k):
             run.inconclusive.append(why)
@@ -592,14 +603,14 @@ def replay(run, case):
         if r['error']:
             run.violation('design_does_not_simulate', dict(mode='domains'), c, observed=r['error'], what=r['error'])
     elif mode == 'split':
-        calls = [(x[0], x[1]) for x in c['calls']]
+        calls = [tuple(x) for x in c['calls']]
         n = sum(x[0] for x in calls)
         single = simulate(plan, hist, calls=[(1, hist[t]) for t in range(n)])
         r = simulate(plan, hist, calls=calls)
         _after_call_checks(run, r, n, c, stats)
         _after_call_checks(run, single, n, c, stats)
         t = 0
-        for k, (m, _) in enumerate(calls):
+        for k, (m, *_) in enumerate(calls):
             t += m
             if not r['error'] and not single['error'] and len(single['traj']) >= t:
                 d = first_diff([single['traj'][t - 1]], [r['traj'][k]])
